@@ -245,7 +245,34 @@ func c12Stamp(cfg []byte, now time.Time) []byte {
 	return c12NowRe.ReplaceAll(cfg, []byte(fmt.Sprintf(`{"now":%d`, now.UnixNano())))
 }
 
+var c12RelRe = regexp.MustCompile(`"?@\{([+-]\d+)\}"?`)
+
+// A scenario template may hold timestamps written "@{+k}": the millisecond clock plus k. They are
+// made absolute here, and the run only counts if the clock stayed inside that millisecond (then
+// the library's own readings fall in it too and every ms comparison against now is decided).
 func c12RunVerify(args [][]byte) ([][]byte, []byte) {
+	if !c12RelRe.Match(args[0]) {
+		return c12RunVerifyAbs(args, time.Time{})
+	}
+	for try := 0; ; try++ {
+		t0 := time.Now()
+		ms := t0.UnixMilli()
+		if t0.Nanosecond()%1000000 > 600000 && try < 1000 { // start early in a millisecond
+			continue
+		}
+		abs := append([][]byte{}, args...)
+		abs[0] = c12RelRe.ReplaceAllFunc(args[0], func(m []byte) []byte {
+			k, _ := strconv.ParseInt(string(c12RelRe.FindSubmatch(m)[1]), 10, 64)
+			return []byte(strconv.FormatInt(ms+k, 10))
+		})
+		final, out := c12RunVerifyAbs(abs, t0)
+		if time.Now().UnixMilli() == ms || try > 2000 {
+			return final, out
+		}
+	}
+}
+
+func c12RunVerifyAbs(args [][]byte, at time.Time) ([][]byte, []byte) {
 	var sc c12ScenarioJSON
 	if err := json.Unmarshal(args[0], &sc); err != nil {
 		return args, B("badconfig")
@@ -270,6 +297,9 @@ func c12RunVerify(args [][]byte) ([][]byte, []byte) {
 	}
 	final := append([][]byte{}, args...)
 	now := time.Now()
+	if !at.IsZero() {
+		now = at
+	}
 	final[0] = c12Stamp(args[0], now)
 	res, err := ring.VerifyJSONs(context.Background(), reqs)
 	R := ""
@@ -734,6 +764,31 @@ func (g *c12Gen) nearClock() {
 	}
 }
 
+// boundaries against the clock itself, to the millisecond (see c12RunVerify)
+func (g *c12Gen) exactClock() {
+	msg, _ := c12Message(1, []c12SigSpec{{"srvA", "ed25519:a", c12Good, 0}}, false)
+	k := c12Keys[0].hex
+	sevenDays := int64(7 * 24 * 3600 * 1000)
+	reps := g.c.Scale(3, 20)
+	for rep := 0; rep < reps; rep++ {
+		for _, d := range []int64{-1, 0, 1, 2} {
+			for _, strict := range []bool{false, true} {
+				// database key with valid_until_ts = now + d: refetched iff not (now < valid_until_ts);
+				// two requests for one key, so the database keys are not tried first
+				cfg := fmt.Sprintf(`{"now":0,"reqs":[{"s":"srvA","at":1000,"strict":%v},{"s":"srvA","at":2000,"strict":%v}],"sig":[[0,"ed25519:a","%s"],[1,"ed25519:a","%s"]],`+
+					`"db":{"ferr":false,"serr":false,"all":false,"keys":[["srvA","ed25519:a","%s",0,"@{%+d}"]]},`+
+					`"fetchers":[{"err":false,"all":false,"keys":[["srvA","ed25519:a","%s",0,"@{+86400000}"]]}]}`, strict, strict, k, k, k, d, k)
+				g.c.Run("C12.verify_jsons", [][]byte{B(cfg), msg, msg}, "C12.verify_jsons", "C12.prop.verify_jsons", fmt.Sprintf("exact clock: refetch at valid_until = now%+d ms", d))
+				// strict rule: at = now + 7 d + d under a far valid_until_ts
+				cfg = fmt.Sprintf(`{"now":0,"reqs":[{"s":"srvA","at":"@{%+d}","strict":%v}],"sig":[[0,"ed25519:a","%s"]],`+
+					`"db":{"ferr":false,"serr":false,"all":false,"keys":[["srvA","ed25519:a","%s",0,"@{%+d}"]]},"fetchers":[]}`, sevenDays+d, strict, k, k, 30*sevenDays)
+				g.c.Run("C12.verify_jsons", [][]byte{B(cfg), msg}, "C12.verify_jsons", "C12.prop.verify_jsons", fmt.Sprintf("exact clock: at = now + 7 d %+d ms", d))
+				g.c.Count("exact-clock")
+			}
+		}
+	}
+}
+
 func (g *c12Gen) wasValidAt() {
 	c := g.c
 	now := g.nowMs()
@@ -814,6 +869,7 @@ func init() {
 		g.singles()
 		g.firstPass()
 		g.nearClock()
+		g.exactClock()
 		n := c.Scale(1500, 40000)
 		for i := 0; i < n; i++ {
 			g.batch()
